@@ -168,37 +168,28 @@ theorem activation_tokens (c : Cfg) (l : Local) (file : File) (din : Option Desc
       (∀ t ∈ b.tokens, t ∈ tokensOf (din.getD []) c.id ∨ ∀ i ∈ din.getD [], t ∉ i.tokens) :=
   PfC08.lc_join_tokens hk hs hp hg hf hnd hle
 
-/-
-Full statement for the BasicLifecycler (FALSE as it stands, see `basic_register_file_token_witness`):
-  registration publishes exactly `numTokens` strictly sorted tokens, the inherited ones (ring entry OR tokens
-  file) included, the new ones in nobody's list.
-Proved part: the guard `hsub` = "the inherited tokens are known to the generator", which holds whenever they
-come from the ring entry (`basic_inherited_from_ring_known`), fails when they come from the tokens file.
--/
-theorem basic_activation_tokens_partial (c : Cfg) (l : Local) (file : File) (din : Option Desc) (shuf : List Nat) (now : Int)
+/-- BasicLifecycler registration with a generator honouring its contract: exactly `numTokens` strictly sorted tokens;
+the inherited ones (from the ring entry OR the tokens file) are kept; every new token is neither inherited nor in
+any instance's list. (Unguarded since /repo 31cf82d passes the kept tokens to the generator as taken. Before the
+fix only `ringDesc.GetTokens()` was passed:
+  c = {BLC, id "a", numTokens 2, hasFile}, file [5], ring empty, generator asked (1, taken = []) may answer [5]
+  ⇒ published tokens [5,5] — former `basic_register_file_token_witness`.)
+`hnd`/`hle`: the inherited list itself is duplicate-free and not longer than `numTokens` (it is kept verbatim). -/
+theorem basic_activation_tokens (c : Cfg) (l : Local) (file : File) (din : Option Desc) (shuf : List Nat) (now : Int)
     (gen : Gen) (fault : Fault) (hk : c.kind = .BLC) (hg : GenOK gen) (hf : fault ≠ .failBefore)
-    (hsub : ∀ t ∈ blcInherited c file (Desc.get? (din.getD []) c.id), t ∈ allTokens (din.getD []))
     (hnd : (blcInherited c file (Desc.get? (din.getD []) c.id)).Nodup)
     (hle : (blcInherited c file (Desc.get? (din.getD []) c.id)).length ≤ c.numTokens) :
     ∃ d' b, (step c l file din (.init shuf) now gen fault).out = .write d' ∧ Desc.get? d' c.id = some b ∧
       b.state = c.registerState ∧ b.tokens.length = c.numTokens ∧ b.tokens.Pairwise (· < ·) ∧
       (∀ t ∈ blcInherited c file (Desc.get? (din.getD []) c.id), t ∈ b.tokens) ∧
       (∀ t ∈ b.tokens, t ∈ blcInherited c file (Desc.get? (din.getD []) c.id) ∨ ∀ i ∈ din.getD [], t ∉ i.tokens) :=
-  PfC08.blc_register_tokens hk hg hf hsub hnd hle
+  PfC08.blc_register_tokens hk hg hf hnd hle
 
-theorem basic_inherited_from_ring_known (c : Cfg) (file : File) (d : Desc) (i : Inst)
-    (hget : Desc.get? d c.id = some i) (hne : i.tokens ≠ [] ∨ c.hasFile = false) :
-    ∀ t ∈ blcInherited c file (Desc.get? d c.id), t ∈ allTokens d :=
-  PfC08.blcInherited_ring_sub hget hne
-
-/-- FINDING (witness): tokens file `[5]`, two tokens wanted, instance not in the (empty) ring. The
-generator is asked for 1 token with NO taken tokens; answering `[5]` honours its contract for this call
-(right count, sorted, not in the taken list) and the published entry holds token 5 twice. -/
-theorem basic_register_file_token_witness :
+example : -- non-vacuity (the former witness input): the generator is now told that 5 is taken
     let c : Cfg := { kind := .BLC, id := "a", numTokens := 2, hasFile := true }
-    let r := step c {} (.tokens [5]) none (.init []) 9 (fun _ _ => [5]) .none
-    r.genReq = some (1, []) ∧
-    r.out = .write [{ id := "a", ts := 9, state := .ACTIVE, tokens := [5, 5], regTs := 9 }] := by
+    let r := step c {} (.tokens [5]) none (.init []) 9 (fun _ _ => [7]) .none
+    r.genReq = some (1, [5]) ∧
+    r.out = .write [{ id := "a", ts := 9, state := .ACTIVE, tokens := [5, 7], regTs := 9 }] := by
   decide
 
 /-! ### 6. readiness -/
